@@ -638,11 +638,15 @@ Fixpoint find_ids_lin (s : state) (ids : list string) (event : json) (now : Z) (
       end
   end.
 
-Fixpoint check_rules (l : list (string * json)) : outcome unit :=
-  match l with
-  | [] => Ok tt
-  | (_, body) :: r => do _ <- rule_from_map body; check_rules r
-  end.
+(** FindCachedRules parses every candidate with RuleFromMap; a candidate that
+    does not parse (a fact with an ill-typed "rule" property, accepted by
+    AddFact) is logged and skipped (repair of D53: it used to fail the whole
+    dispatch). *)
+Definition rule_parses (body : json) : bool :=
+  match rule_from_map body with Ok _ => true | _ => false end.
+
+Definition check_rules (l : list (string * json)) : list (string * json) :=
+  filter (fun kv => rule_parses (snd kv)) l.
 
 (** State.FindCachedRules: id -> rule body of the candidate rules. *)
 Definition st_find_rules (s : state) (event : json) (now : Z)
@@ -659,11 +663,6 @@ Definition st_find_rules (s : state) (event : json) (now : Z)
     | Linear => find_ids_lin s (map fst (st_facts s)) event now []
     end in
   match res with
-  | Ok l => match check_rules l with
-            | Ok _ => (s1, Ok l)
-            | Err e => (s1, Err e)
-            | Panic w => (s1, Panic w)
-            | OutOfFuel => (s1, OutOfFuel)
-            end
+  | Ok l => (s1, Ok (check_rules l))
   | _ => (s1, res)
   end.
